@@ -360,6 +360,11 @@ def rule_r6(F, rep):
                  "argument, ...) would take the frame-free tail-call path although work remains after it, so the recursion is "
                  "never counted against the limit")
     rows = envflow.tail_rows(F)
+    # a two-variant flag type instead of bool: the variant handed to a function body (always a tail position) means "yes"
+    yes_enum = {r["flag"] for r in rows if str(r["flag"]).startswith("enum:") and "/".join(r["child"]) in TAIL_OK}
+    for r in rows:
+        if str(r["flag"]).startswith("enum:"):
+            r["flag"] = "yes" if r["flag"] in yes_enum else "no"
     for r in rows:
         path = "/".join(r["child"])
         allowed = path in TAIL_OK
